@@ -429,6 +429,13 @@ def abort_class(mb):
                 mult = 2.0 * max(float(qs[0].scale[0]), float(qs[1].scale[0])) / ((1 << ls) * float(qs[2].scale[0]))
                 if mult >= 1.0:
                     return f"{name}:int{16 if ty == TT.INT16 else 8}-output-multiplier>=1"
+                if ty == TT.INT16:
+                    # the schema default pot_scale_int16 = true is kept (finding D26): when all three scales are within 1e-3 (log2) of
+                    # powers of two the kernel takes its power-of-two path, whose shift arithmetic is only meant for EXACT powers of two
+                    import math
+                    logs = [math.log2(float(q.scale[0])) for q in qs]
+                    if all(abs(v - round(v)) < 1e-3 for v in logs):
+                        return f"{name}:int16-pot-scale-path"
     except Exception:  # noqa: BLE001
         return None
     return None
